@@ -10,6 +10,12 @@ def model(ctx, res, cfg):
     if "is violated" in out["raw"]:
         raise vlib.Broken("Pool.tla violates its own invariants: " + "\n".join(l for l in out["raw"].splitlines() if l.startswith("Error"))[:500])
     res.extra["pool_model_distinct_states"] = out["distinct"]
+    if cfg == "Pool.cfg":
+        # thorough tier: the three-goroutine pool with one replacement key, and the three-goroutine cache with three keys
+        out2 = ctx.tlc("Pool", "Pool_cache.cfg", timeout=7200, allow_violation=True)
+        if "is violated" in out2["raw"]:
+            raise vlib.Broken("Pool.tla (cache configuration) violates its own invariants")
+        res.extra["pool_cache_model_distinct_states"] = out2["distinct"]
     # the same model with CacheAdd inserting blindly must lose LRUConsistent: the invariant is not vacuous and the second
     # lookup inside add() is what it rests on
     neg = ctx.tlc("Pool", "Pool_norecheck.cfg", timeout=600, allow_violation=True)
